@@ -91,7 +91,11 @@ class Ctx:
         return random.Random(repr((self.prop, self.seed) + key))
 
     def out_of_time(self):
-        return self.deadline is not None and time.monotonic() > self.deadline
+        if self.deadline is not None and time.monotonic() > self.deadline:
+            # the workload of this shard was cut by the time budget: visible in the evidence, never a verdict by itself
+            self.counters['shards_cut_by_time_budget'] = 1
+            return True
+        return False
 
     # -- accounting --------------------------------------------------------------------------
     def evals(self, n=1):
